@@ -634,7 +634,46 @@ pub fn final_view(w: &mut World) -> Value {
         Outcome::Ok(v) => v,
         Outcome::Panic(m) | Outcome::Crash(m) => json!({"panic": m}),
     };
-    json!({"abs": abs, "rp": rpv})
+    // The publication server seen from its two stores and from what it
+    // serves: publishers with access, objects per publisher in the
+    // repository content (the stats view), objects per publisher directory
+    // in the RRDP snapshot and the rsync tree on disk. Objects of a
+    // publisher that no longer exists show up here (the views above go
+    // through the list of publishers).
+    let krill = w.env.krill.clone();
+    let mut access: Vec<String> = krill.repo_manager().publishers()
+        .unwrap_or_default().iter().map(|p| p.to_string()).collect();
+    access.sort();
+    let stats: BTreeMap<String, usize> = match guarded(|| {
+        krill.repo_manager().repo_stats()
+    }) {
+        Outcome::Ok(Ok(st)) => st.publishers.iter().map(|(k, v)| {
+            (k.to_string(), v.objects)
+        }).collect(),
+        _ => BTreeMap::from([("?".to_string(), 0)]),
+    };
+    let per_dir = |objs: &rp::Objects| -> BTreeMap<String, usize> {
+        let mut res = BTreeMap::new();
+        for uri in objs.keys() {
+            let rel = uri.strip_prefix(RSYNC_BASE).unwrap_or(uri);
+            let dir = match rel.split_once('/') {
+                Some((d, _)) => d.to_string(),
+                None => "".to_string(),
+            };
+            *res.entry(dir).or_insert(0) += 1;
+        }
+        res
+    };
+    let root = w.env.dir.clone();
+    let rrdp = rp::read_rrdp_snapshot(&root.join("repo")).ok().map(|x| {
+        per_dir(&x.0)
+    });
+    let rsync = per_dir(&rp::read_rsync_tree(&root.join("repo"), RSYNC_BASE));
+    json!({
+        "abs": abs, "rp": rpv,
+        "pubd": {"access": access, "stats": stats, "rrdp": rrdp,
+                 "rsync": rsync},
+    })
 }
 
 //------------ operations ----------------------------------------------------
